@@ -771,6 +771,21 @@ def install(R):
             old, fm = arr.snapshot(), idx.snapshot()
             arr.assign_fn(lambda r, *c: z3.If(fm.get(r), cast(val, arr.kind), old.get(r, *c)))
             return None
+        if isinstance(idx, tuple) and len(idx) == 2 and isinstance(idx[0], NdArr) and idx[0].kind == "int" and idx[0].ndim == 1 \
+                and not isinstance(idx[1], (NdArr, slice, tuple, list)) and arr.ndim == 2 and not isinstance(val, NdArr):
+            # mat[indices, j] = v : rows listed in an integer vector, one column
+            from .npmodel import cast
+            from .pymodel import norm_index
+            col = norm_index(E, idx[1], arr.shape[1], node)
+            fi = idx[0].snapshot()
+            m = z(idx[0].shape[0])
+            q = z3.Int(fresh_name("fq"))
+            E.safety("fancy-store-rows", z3.ForAll([q], z3.Implies(z3.And(q >= 0, q < m), z3.And(fi.get(q) >= 0, fi.get(q) < z(arr.shape[0])))),
+                     node, "IndexError")
+            old = arr.snapshot()
+            hit = lambda r: z3.Exists([q], z3.And(q >= 0, q < m, fi.get(q) == r))
+            arr.assign_fn(lambda r, c: z3.If(z3.And(c == z(col), hit(r)), cast(val, arr.kind), old.get(r, c)))
+            return None
         raise Unsupported("fancy store %r" % (idx,))
     R.fancy_set = fancy_set
 
